@@ -681,12 +681,17 @@ class BaseTaskPool:
             for task_set in self._group_meta_tasks_running.values()
             for task in task_set
         )
-        with suppress(CancelledError):
-            await gather(
-                *self._meta_tasks_cancelled,
-                *not_cancelled_meta_tasks,
-                return_exceptions=return_exceptions,
-            )
+        # Always wait for every meta task; a cancelled one must not cut the
+        # wait for those still spawning tasks short.
+        meta_results = await gather(
+            *self._meta_tasks_cancelled,
+            *not_cancelled_meta_tasks,
+            return_exceptions=True,
+        )
+        if not return_exceptions:
+            for result in meta_results:
+                if isinstance(result, Exception):
+                    raise result
         self._meta_tasks_cancelled.clear()
         self._group_meta_tasks_running.clear()
         await gather(
